@@ -167,6 +167,9 @@ func (s *State) ghostInt(name string) *Term {
 	if b := s.bump["#spawnver"]; b > 0 && len(name) >= 6 && name[:6] == "#spawn" {
 		vn = fmt.Sprintf("%s_%d", vn, b)
 	}
+	if b := s.bump[name]; b > 0 {
+		vn = fmt.Sprintf("%s_k%d", vn, b)
+	}
 	t := Var(vn, SInt)
 	s.ghost[name] = t
 	return t
